@@ -82,20 +82,20 @@ Proof.
     rewrite andb_false_r. destruct (cnf_fn _ _) as [cls fresh']. eexists. reflexivity.
   - (* AtMost *)
     cbn [constraint_f1] in Hc. rewrite !andb_true_iff in Hc. destruct Hc as [[Hf Hl] Hg].
-    apply Nat.ltb_lt in Hf, Hl. destruct (geom_ok_some fb wb Hg) as [rs Ers].
+    apply Nat.ltb_lt in Hl. destruct (geom_ok_some fb wb Hg) as [rs Ers].
     unfold apply_atmost, sublistss. rewrite (f1_var_lists fb HF1 f l wb rs Hf Hl Ers). cbn [cbind]. eexists. reflexivity.
   - (* AtLeastKInARow *) exact (atleast_total fb HF1 _ _ _ _ fresh Hc).
   - (* ExactlyK *)
     cbn [constraint_f1] in Hc. rewrite !andb_true_iff in Hc. destruct Hc as [[[Hf Hl] Hg] _].
-    apply Nat.ltb_lt in Hf, Hl. destruct (geom_ok_some fb wb Hg) as [rs Ers].
+    apply Nat.ltb_lt in Hl. destruct (geom_ok_some fb wb Hg) as [rs Ers].
     unfold apply_exactlyk. rewrite (f1_var_lists fb HF1 f l wb rs Hf Hl Ers). cbn [cbind]. eexists. reflexivity.
   - (* ExactlyKInARow *) exact (exactrow_total fb HF1 _ _ _ _ fresh Hc).
   - (* Exclude *)
-    cbn [constraint_f1] in Hc. rewrite !andb_true_iff in Hc. destruct Hc as [Hf Hl]. apply Nat.ltb_lt in Hf, Hl.
+    cbn [constraint_f1] in Hc. rewrite !andb_true_iff in Hc. destruct Hc as [Hf Hl]. apply Nat.ltb_lt in Hl.
     unfold apply_exclude. rewrite (f1_var_lists_none fb HF1 f l Hf Hl). cbn [cbind]. eexists. reflexivity.
   - (* Pin *)
     cbn [constraint_f1] in Hc. rewrite !andb_true_iff in Hc. destruct Hc as [[[Hf Hl] Hg] Hs].
-    apply Nat.ltb_lt in Hf, Hl. apply Nat.eqb_eq in Hs. destruct (geom_ok_some fb wb Hg) as [rs Ers].
+    apply Nat.ltb_lt in Hl. apply Nat.eqb_eq in Hs. destruct (geom_ok_some fb wb Hg) as [rs Ers].
     unfold apply_pin. rewrite (f1_trial_numbers fb f index wb rs Hs Ers).
     destruct (flat_map _ rs) as [|p ps]; [eexists; reflexivity|].
     assert (Evars : forall pl, cmapM (fun t => if negb (applies_at fb f (t + 1)) then COk [[1%Z]; [(-1)%Z]]
